@@ -536,8 +536,13 @@ pub fn gen_rename_args(src: &mut Src, m: &Message) -> RenameArgs {
         let base = src.pick(&names).clone();
         let i = src.below(base.0.len());
         let present = Name(base.0[i..].to_vec());
-        match src.weighted(&[8, 3, 2, 2, 2, 2]) {
+        match src.weighted(&[8, 3, 2, 2, 2, 2, 2]) {
             0 => (present, "present"),
+            6 => match gens::bit5_twin(src, &present) {
+                // near miss: a non-letter byte differs in bit 5 only
+                Some(t) => (t, "near-miss-bit5-of-non-letter"),
+                None => (present, "present"),
+            },
             1 => {
                 // case flipped
                 (Name(present.0.iter().map(|l| l.iter().map(|&c| if c.is_ascii_alphabetic() { c ^ 0x20 } else { c }).collect()).collect()), "present-case-flipped")
@@ -806,7 +811,7 @@ pub fn c07_regressions() -> Vec<(&'static str, Message, RenameArgs, bool)> {
 pub fn check_c07(ctx: &Ctx, known: &KnownFindings) -> Report {
     let mut rep = Report::new("C07");
     let ks = known_sigs(known, "C07");
-    rep.rule = "accepted packets (small, any layout, OPT anywhere) x (target, source, exact|suffix): source drawn from the suffixes present in the packet at every label depth (plain, case-flipped), near-misses (partial label, one byte changed, one extra label), absent names; target generated, = source, single label, or 64..255 bytes long (overflow). Both Renamer::rename_with_raw_names and the ParsedPacket wrapper. Oracle: specification of renaming applied to the decoded message; overflow => Err (object unchanged and usable); else Ok, output accepted by parser and reference and equal to the renamed model up to name case (header, counts, order, types, classes, TTLs, opaque data, OPT record and its position exact); identity rename leaves the message unchanged; after the wrapper the object walks and summarises like a fresh parse. Non-trivial: >= 1 name rewritten or a near-miss source; distinct = hash of (packet, args).".into();
+    rep.rule = "accepted packets (small, any layout, OPT anywhere) x (target, source, exact|suffix): source drawn from the suffixes present in the packet at every label depth (plain, case-flipped), near-misses (partial label, one byte changed, bit 5 of a non-letter byte flipped, one extra label), absent names; target generated, = source, single label, or 64..255 bytes long (overflow). Both Renamer::rename_with_raw_names and the ParsedPacket wrapper. Oracle: specification of renaming applied to the decoded message; overflow => Err (object unchanged and usable); else Ok, output accepted by parser and reference and equal to the renamed model up to name case (header, counts, order, types, classes, TTLs, opaque data, OPT record and its position exact); identity rename leaves the message unchanged; after the wrapper the object walks and summarises like a fresh parse. Non-trivial: >= 1 name rewritten or a near-miss source; distinct = hash of (packet, args).".into();
     rep.assumptions = vec![
         "source and target are well-formed, pointer-free, non-root raw names within the label character policy".into(),
         "domain = packets accepted by both parser and reference".into(),
@@ -837,6 +842,7 @@ pub fn check_c07(ctx: &Ctx, known: &KnownFindings) -> Report {
         "source:near-miss-byte-changed",
         "source:near-miss-extra-label",
         "source:near-miss-length-byte-inside-label",
+        "source:near-miss-bit5-of-non-letter",
         "source:absent",
         "mode:suffix",
         "mode:exact",
